@@ -55,6 +55,16 @@ func c07faults(c *wk.Ctx) []c07fault {
 	for _, k := range []string{"server_DH_params_fail", "dh_gen_retry", "dh_gen_fail", "resPQ-as-dh-reply", "dh_gen_ok-as-dh-reply", "rpc_error-as-resPQ"} {
 		out = append(out, c07fault{"ctor", k, 0})
 	}
+	// the decrypted answer is authentic (its SHA-1 prefix matches) but is not a server_DH_inner_data
+	for _, k := range []string{"inner-is-dh_gen_ok", "inner-is-resPQ", "inner-garbage", "inner-truncated", "inner-empty", "inner-unregistered-id"} {
+		out = append(out, c07fault{"dh.inner", k, 0})
+	}
+	// a registered object of the wrong kind in place of each of the three replies
+	for stage := 1; stage <= 3; stage++ {
+		for _, k := range []string{"pong", "rpc_error", "dh_gen_ok", "new_session_created", "bool"} {
+			out = append(out, c07fault{fmt.Sprintf("reply%d", stage), k, 0})
+		}
+	}
 	return out
 }
 
@@ -159,6 +169,43 @@ func c07case(c *wk.Ctx, idx int, r *rand.Rand, f c07fault) {
 				h.AnswerPad = -2 // handled below: minimal + 16
 			case "pad-32":
 				h.AnswerPad = -3
+			}
+		case f.Site == "dh.inner" && h.Stage == "dh_params":
+			applied = true
+			h.InnerOverride = func(honest []byte) []byte {
+				switch f.How {
+				case "inner-is-dh_gen_ok":
+					return append(append(append(le32(0x3bcbf734), h.Nonce...), h.ServerNonce...), rbytes(r, 16)...)
+				case "inner-is-resPQ":
+					b := append(append(le32(0x05162463), h.Nonce...), h.ServerNonce...)
+					b = append(b, mtp.TLBytes([]byte{1, 2, 3, 4, 5, 6, 7, 8})...)
+					return append(b, vecLong(1)...)
+				case "inner-garbage":
+					return rbytes(r, len(honest))
+				case "inner-truncated":
+					return honest[:len(honest)/2/4*4]
+				case "inner-empty":
+					return nil
+				default:
+					return append(le32(0xdeadbeef), honest[4:]...)
+				}
+			}
+		case len(f.Site) == 6 && f.Site[:5] == "reply" && map[string]string{"reply1": "resPQ", "reply2": "dh_params", "reply3": "dh_gen"}[f.Site] == h.Stage:
+			applied = true
+			switch f.How {
+			case "pong":
+				h.ReplyOverride = refserver.Pong(1, 2)
+			case "rpc_error":
+				h.ReplyOverride = refserver.RPCError(500, "INTERNAL")
+			case "dh_gen_ok":
+				h.ReplyOverride = append(append(append(le32(0x3bcbf734), h.Nonce...), h.ServerNonce...), rbytes(r, 16)...)
+			case "new_session_created":
+				h.ReplyOverride = refserver.NewSessionCreated(1, 2, 3)
+			case "bool":
+				h.ReplyOverride = le32(0x997275b5)
+			}
+			if f.Site == "reply3" && f.How == "dh_gen_ok" {
+				h.ReplyOverride = refserver.Pong(3, 4) // dh_gen_ok is the honest reply of stage 3
 			}
 		case f.Site == "gen.nonce" && h.Stage == "dh_gen":
 			h.Nonce = mutNonce(r, h.Nonce, h.ServerNonce, f)
